@@ -202,7 +202,8 @@ class Unzipped:
         return self
 
     def sx_iter(self, ex):
-        return None
+        # unpacking `a, b = zip(*pairs)`: the k columns (raises for an empty sequence: obligation in sx_getitem)
+        return [self.sx_getitem(ex, c, None) for c in range(self.k)]
 
 
 class SymKwargs:
